@@ -19,6 +19,9 @@ for name, e in C["engines"].items():
         cmd.append("--release")
     print("+", " ".join(cmd), "in", crate, flush=True)
     ee = dict(env); ee.update(e.get("env", {}))
+    ee["CARGO_TARGET_DIR"] = e.get("target_dir", os.path.join(crate, "target"))
+    for k in ("CARGO_BUILD_TARGET_DIR", "CARGO_BUILD_TARGET", "CARGO_ENCODED_RUSTFLAGS", "CARGO_BUILD_RUSTFLAGS", "RUSTC_WRAPPER"):
+        ee.pop(k, None)
     r = subprocess.run(cmd, cwd=crate, env=ee)
     if r.returncode != 0:
         bad += 1
